@@ -84,4 +84,224 @@ theorem pair_eq (a b : UInt8) :
       have := cmul_cadd_nibbles x (digitVal?_lt a x ha) y (digitVal?_lt b y hb)
       simp [this.1, this.2, dv, ha, hb]
 
+/-! ## from_hex: the loop and its closed form -/
+
+def pairVal (s : List UInt8) (k : Nat) : UInt8 := 16 * dv (s[2 * k]?.getD 0) + dv (s[2 * k + 1]?.getD 0)
+
+def fill (s : List UInt8) (i : Nat) (acc : Vector UInt8 32) : Vector UInt8 32 :=
+  Vector.ofFn fun k => if k.val < i then acc[k] else pairVal s k.val
+
+theorem Outcome.bind_assoc {ε α β γ : Type} (x : Outcome ε α) (f : α → Outcome ε β) (g : β → Outcome ε γ) :
+    (x.bind f).bind g = x.bind fun a => (f a).bind g := by
+  cases x <;> rfl
+
+theorem idx_ok {ε : Type} (s : List UInt8) (i : Nat) (h : i < s.length) : (idx s i : Outcome ε UInt8) = .ok s[i] := by
+  simp [idx, h]
+
+theorem body_eq (s : List UInt8) (hs : s.length = 64) (i : Nat) (hi : i < 32) (acc : Vector UInt8 32) :
+    fromHexBody s i acc =
+      if isHexDigit (s[2 * i]?.getD 0) then
+        if isHexDigit (s[2 * i + 1]?.getD 0) then .ok (acc.set i (pairVal s i) hi)
+        else .err (.invalidByte (s[2 * i + 1]?.getD 0))
+      else .err (.invalidByte (s[2 * i]?.getD 0)) := by
+  have h1 : 2 * i < s.length := by omega
+  have h2 : 2 * i + 1 < s.length := by omega
+  have hm : (umul 2 i : Outcome HexError Nat) = .ok (2 * i) := by
+    have : 2 * i < 2 ^ 64 := by omega
+    simp [umul, this]
+  have ha : (uadd (2 * i) 1 : Outcome HexError Nat) = .ok (2 * i + 1) := by
+    have : 2 * i + 1 < 2 ^ 64 := by omega
+    simp [uadd, this]
+  have g1 : s[2 * i]?.getD 0 = s[2 * i] := by simp [h1]
+  have g2 : s[2 * i + 1]?.getD 0 = s[2 * i + 1] := by simp [h2]
+  have P := pair_eq s[2 * i] s[2 * i + 1]
+  have assoc : fromHexBody s i acc =
+      ((hexVal s[2 * i]).bind fun va => (cmul 16 va).bind fun hi => (hexVal s[2 * i + 1]).bind fun vb =>
+        cadd hi vb).bind (setIdx acc i) := by
+    unfold fromHexBody
+    simp only [hm, ha, Outcome.ok_bind, idx_ok s _ h1, idx_ok s _ h2, Outcome.bind_assoc]
+  rw [assoc, P, g1, g2]
+  by_cases ca : isHexDigit s[2 * i] = true
+  · by_cases cb : isHexDigit s[2 * i + 1] = true
+    · simp [ca, cb, setIdx, hi, pairVal, h1, h2]
+    · simp [ca, cb]
+  · simp [ca]
+
+def notHex (b : UInt8) : Bool := !isHexDigit b
+
+theorem fill_full (s : List UInt8) (acc : Vector UInt8 32) : fill s 32 acc = acc := by
+  apply Vector.ext; intro k hk
+  simp [fill]
+
+theorem fill_step (s : List UInt8) (i : Nat) (hi : i < 32) (acc : Vector UInt8 32) :
+    fill s (i + 1) (acc.set i (pairVal s i) hi) = fill s i acc := by
+  apply Vector.ext; intro k hk
+  simp only [fill, Vector.getElem_ofFn]
+  by_cases h1 : k < i
+  · have : k < i + 1 := by omega
+    have : ¬ i = k := by omega
+    simp [*]
+  · by_cases h2 : k = i
+    · subst h2; simp
+    · have : ¬ k < i + 1 := by omega
+      simp [*]
+
+theorem loop_eq (s : List UInt8) (hs : s.length = 64) : ∀ n i acc, i + n = 32 →
+    forCount (fromHexBody s) n i acc =
+      match (s.drop (2 * i)).find? notHex with
+      | some b => .err (.invalidByte b)
+      | none => .ok (fill s i acc) := by
+  intro n
+  induction n with
+  | zero =>
+    intro i acc h
+    have : i = 32 := by omega
+    subst this
+    have : s.drop (2 * 32) = [] := by simp [hs]
+    simp [forCount, this, fill_full]
+  | succ n ih =>
+    intro i acc h
+    have hi : i < 32 := by omega
+    have h1 : 2 * i < s.length := by omega
+    have h2 : 2 * i + 1 < s.length := by omega
+    have hd : s.drop (2 * i) = s[2 * i] :: s[2 * i + 1] :: s.drop (2 * (i + 1)) := by
+      rw [List.drop_eq_getElem_cons h1, List.drop_eq_getElem_cons h2]
+      have : 2 * i + 1 + 1 = 2 * (i + 1) := by omega
+      rw [this]
+    rw [forCount, body_eq s hs i hi, hd]
+    have g1 : s[2 * i]?.getD 0 = s[2 * i] := by simp [h1]
+    have g2 : s[2 * i + 1]?.getD 0 = s[2 * i + 1] := by simp [h2]
+    rw [g1, g2]
+    by_cases ca : isHexDigit s[2 * i] = true
+    · by_cases cb : isHexDigit s[2 * i + 1] = true
+      · simp only [ca, cb, if_true, Outcome.ok_bind, List.find?_cons, notHex, Bool.not_true]
+        rw [ih (i + 1) _ (by omega), fill_step]
+      · simp [ca, cb, notHex]
+    · simp [ca, notHex]
+
+theorem fromHex_eq (s : List UInt8) :
+    fromHex s =
+      if s.length ≠ 64 then .err (.invalidLen s.length)
+      else match s.find? notHex with
+        | some b => .err (.invalidByte b)
+        | none => .ok ⟨Vector.ofFn fun k => pairVal s k.val⟩ := by
+  unfold fromHex
+  by_cases hl : s.length = 64
+  · have := loop_eq s hl 32 0 (Vector.replicate 32 0) (by omega)
+    simp only [OUT_LEN, hl, forRange, Nat.sub_zero, this]
+    simp only [Nat.mul_zero, List.drop_zero]
+    cases s.find? notHex with
+    | some b => simp
+    | none => simp [fill, Hash.ofArray, Hash.fromBytes]
+  · simp [OUT_LEN, hl]
+
+/-! ## to_hex -/
+
+theorem table_lookup : ∀ b : UInt8,
+    (idx TABLE (b >>> 4).toNat : Outcome Empty UInt8) = .ok (lowerDigit (b >>> 4)) ∧
+    (idx TABLE (b &&& 0xf).toNat : Outcome Empty UInt8) = .ok (lowerDigit (b &&& 0xf)) ∧
+    charUtf8 (lowerDigit (b >>> 4)) = [lowerDigit (b >>> 4)] ∧
+    charUtf8 (lowerDigit (b &&& 0xf)) = [lowerDigit (b &&& 0xf)] := by
+  apply forall_byte; decide +kernel
+
+theorem digits_of_byte : ∀ b : UInt8,
+    isLowerHex (lowerDigit (b >>> 4)) = true ∧ isLowerHex (lowerDigit (b &&& 0xf)) = true ∧
+    (16 : UInt8) * dv (lowerDigit (b >>> 4)) + dv (lowerDigit (b &&& 0xf)) = b := by
+  apply forall_byte; decide +kernel
+
+theorem isLowerHex_isHexDigit : ∀ b : UInt8, isLowerHex b = true → isHexDigit b = true := by
+  apply forall_byte; decide +kernel
+
+def hexPairs (l : List UInt8) : List UInt8 :=
+  l.flatMap fun (b : UInt8) => [lowerDigit (b >>> 4), lowerDigit (b &&& 0xf)]
+
+theorem hexPairs_cons (b : UInt8) (l : List UInt8) :
+    hexPairs (b :: l) = lowerDigit (b >>> 4) :: lowerDigit (b &&& 0xf) :: hexPairs l := by
+  simp [hexPairs]
+
+theorem hexPairs_length (l : List UInt8) : (hexPairs l).length = 2 * l.length := by
+  induction l with
+  | nil => rfl
+  | cons b l ih => rw [hexPairs_cons]; simp [ih]; omega
+
+theorem hexPairs_lower (l : List UInt8) : ∀ c ∈ hexPairs l, isLowerHex c = true := by
+  induction l with
+  | nil => intro c hc; simp [hexPairs] at hc
+  | cons b l ih =>
+    intro c hc
+    rw [hexPairs_cons] at hc
+    have := digits_of_byte b
+    simp only [List.mem_cons] at hc
+    rcases hc with rfl | rfl | hc
+    · exact this.1
+    · exact this.2.1
+    · exact ih c hc
+
+theorem hexPairs_getElem? (l : List UInt8) : ∀ k,
+    (hexPairs l)[2 * k]? = l[k]?.map (fun (b : UInt8) => lowerDigit (b >>> 4)) ∧
+    (hexPairs l)[2 * k + 1]? = l[k]?.map (fun (b : UInt8) => lowerDigit (b &&& 0xf)) := by
+  induction l with
+  | nil => intro k; simp [hexPairs]
+  | cons b l ih =>
+    intro k
+    rw [hexPairs_cons]
+    cases k with
+    | zero => simp
+    | succ k =>
+      have e1 : 2 * (k + 1) = (2 * k) + 1 + 1 := by omega
+      rw [e1]
+      simp only [List.getElem?_cons_succ]
+      exact ih k
+
+theorem toHexLoop_eq (l : List UInt8) : ∀ s : List UInt8, s.length + 2 * l.length ≤ 64 →
+    toHexLoop l s = .ok (s ++ hexPairs l) := by
+  induction l with
+  | nil => intro s _; simp [toHexLoop, hexPairs]
+  | cons b l ih =>
+    intro s hs
+    have T := table_lookup b
+    simp only [List.length_cons] at hs
+    have p1 : (pushChar s (lowerDigit (b >>> 4)) : Outcome Empty _) = .ok (s ++ [lowerDigit (b >>> 4)]) := by
+      have : s.length + 1 ≤ 2 * 32 := by omega
+      simp [pushChar, T.2.2.1, OUT_LEN, this]
+    have p2 : (pushChar (s ++ [lowerDigit (b >>> 4)]) (lowerDigit (b &&& 0xf)) : Outcome Empty _) =
+        .ok (s ++ [lowerDigit (b >>> 4)] ++ [lowerDigit (b &&& 0xf)]) := by
+      have : s.length + 1 + 1 ≤ 2 * 32 := by omega
+      simp [pushChar, T.2.2.2, OUT_LEN, this]
+    rw [toHexLoop, T.1, Outcome.ok_bind, p1, Outcome.ok_bind, T.2.1, Outcome.ok_bind, p2, Outcome.ok_bind,
+      ih _ (by simp; omega), hexPairs_cons]
+    simp
+
+theorem toHex_eq (h : Hash) : toHex h = hexPairs h.bytes.toList := rfl
+
+theorem toHexO_eq (h : Hash) : toHexO h = .ok (toHex h) := by
+  have := toHexLoop_eq h.bytes.toList [] (by simp)
+  simpa [toHexO, toHex_eq] using this
+
+theorem toHex_length (h : Hash) : (toHex h).length = 64 := by
+  simp [toHex_eq, hexPairs_length]
+
+theorem toHex_find (h : Hash) : (toHex h).find? notHex = none := by
+  rw [List.find?_eq_none]
+  intro c hc
+  have := isLowerHex_isHexDigit c (hexPairs_lower _ c hc)
+  simp [notHex, this]
+
+theorem toHex_pairVal (h : Hash) (k : Nat) (hk : k < 32) : pairVal (toHex h) k = h.bytes[k] := by
+  have G := hexPairs_getElem? h.bytes.toList k
+  have hk' : k < h.bytes.toList.length := by simp [hk]
+  have e : h.bytes.toList[k]? = some h.bytes[k] := by
+    rw [List.getElem?_eq_getElem hk']; simp
+  rw [e] at G
+  simp only [pairVal, toHex_eq, G.1, G.2, Option.map_some, Option.getD_some]
+  exact (digits_of_byte _).2.2
+
+theorem fromHex_toHex (h : Hash) : fromHex (toHex h) = .ok h := by
+  rw [fromHex_eq, toHex_find]
+  have hl : ¬ (toHex h).length ≠ 64 := by simp [toHex_length]
+  rw [if_neg hl]
+  have : (Vector.ofFn fun k : Fin 32 => pairVal (toHex h) k.val) = h.bytes := by
+    apply Vector.ext; intro k hk
+    simp [toHex_pairVal h k hk]
+  simp only [this]
 end B3.Hex
